@@ -45,3 +45,12 @@ Proof. exact lock_leak_refuted. Qed.
 Theorem C18_lock_leak_repaired :
   transfers true None [(0, [Proceed; Raises]); (1, [Proceed; Proceed; Proceed])] = (None, [Failed; Completed]).
 Proof. exact lock_leak_repaired. Qed.
+
+(* what a zone's Schedule OVERHEARS (Schedule._handle_msg): acknowledgements of schedule writes -- its own gateway's or another's -- and fragments
+   arriving while its own transfer holds the lock change neither the fragment set nor the schedule held ... *)
+Theorem C18_acknowledgements_change_nothing : forall es st, (forall e, In e es -> is_frag e = false) -> hear_all st es = st.
+Proof. exact hear_non_fragments. Qed.
+(* ... and hearing ANY traffic is feeding the reassembly exactly the fragments among it, in order: nothing but a fragment ever enters the set
+   (so the version bookkeeping theorems above apply to whatever is overheard) *)
+Theorem C18_only_fragments_are_stored : forall es ps last, hear_all (ps, last) es = vfeed ps last (flat_map frag_of es).
+Proof. exact hear_is_vfeed. Qed.
